@@ -171,8 +171,6 @@ func propC12(c c12Case, o *Obs) error {
 				return Failf("C12/legal-refused", "%s: legal transaction %v refused: %v (live: %v)", what, refs, err, liveNames(store))
 			case !ok && err == nil:
 				return Failf("C12/illegal-accepted", "%s: transaction %v accepted although %s (live before: %v)", what, refs, why, liveNames(store))
-			case !ok && err == reftable.ErrLockFailure:
-				return Failf("C12/wrong-error", "%s: rejection reported as lock failure", what)
 			}
 			if err == nil {
 				store.Apply(refs, nil)
